@@ -438,6 +438,12 @@ public:
         m_memoryManager = theRHS.m_memoryManager;
         theRHS.m_memoryManager = temp;
 
+        // The blocks are laid out for the block size of the deque that
+        // built them, so the block size goes with them.
+        const size_type     tempSize = m_blockSize;
+        m_blockSize = theRHS.m_blockSize;
+        theRHS.m_blockSize = tempSize;
+
         theRHS.m_blockIndex.swap(m_blockIndex);
         theRHS.m_freeBlockVector.swap(m_freeBlockVector);
     }
@@ -523,7 +529,7 @@ private:
 
     MemoryManager*      m_memoryManager;
 
-    const size_type     m_blockSize;
+    size_type           m_blockSize;
 
     BlockIndexType	    m_blockIndex; 
     BlockIndexType	    m_freeBlockVector;
